@@ -8,18 +8,31 @@ def run(run):
     run.rule = ('contexts as C03 (object labels chosen so that label order differs from positional order); the model sorts the '
                 'implementation\'s own extents: iteration order, index, dindex, infimum/supremum, atoms, order inside neighbor tuples')
     d = run.driver
-    for tab, pc in lat.contexts(run, exh_quick=10, rand_quick=500, wide_quick=40, exh_thorough=14, nmax=10, mmax=9):
-        if min(pc.n, pc.m) > 12:
+    import concepts
+    prev = None
+    for tab, pc0 in lat.contexts(run, exh_quick=10, rand_quick=500, wide_quick=40, exh_thorough=14, nmax=10, mmax=9):
+        if min(pc0.n, pc0.m) > 12:
             continue
+        # the lattice of this context is built first; then the serialised lattice of the PREVIOUS context (usually of
+        # another size) is loaded, so that nothing left behind by building one lattice may leak into loading another
+        with guard(run, 'todict', [pc0.line, 'lattice']):
+            pc0.ctx.lattice
+            dd0 = pc0.ctx.todict()
+        check_one(run, d, tab, pc0, None, 0, concepts)
+        if prev is not None:
+            ptab, ppc, pdd = prev
+            check_one(run, d, ptab, ppc, pdd, 1 + run.evaluations % 2, concepts)
+        prev = (tab, pc0, dd0)
+
+
+def check_one(run, d, tab, pc, dd, variant, concepts):
+    if True:
         extra = {'objects': pc.objects, 'properties': pc.properties, 'bools': pc.bools}
         w = pc.n
-        import concepts
-        variant = run.evaluations % 3
         with guard(run, 'iteration order / index / dindex / neighbor order', [pc.line, 'lattice']):
             if variant == 0:
                 L = pc.ctx.lattice
             else:
-                dd = pc.ctx.todict()
                 if variant == 2:
                     def shuf(t):
                         t = list(t)
